@@ -16,6 +16,12 @@ PID = "C10"
 TOL = 1e-9
 
 
+def _SC(state, covariance):
+    from formak import python
+
+    return python.StateAndCovariance(state, covariance)
+
+
 class RecordingFilter:
     """Stand-in filter: records the dt of every process_model call, passes state/covariance through."""
 
@@ -26,11 +32,11 @@ class RecordingFilter:
 
     def process_model(self, dt, state, covariance, control=None):
         self.dts.append(dt)
-        return state, covariance
+        return _SC(state, covariance)
 
     def sensor_model(self, state, covariance, *, sensor_key, sensor_reading):
         self.dts.append("S")
-        return state, covariance
+        return _SC(state, covariance)
 
     def make_reading(self, key, **kw):
         return kw
